@@ -193,9 +193,11 @@ impl Connection {
                         std::thread::sleep(wait_time);
                         continue;
                     } else {
-                        // After max attempts, return error but don't close connection
-                        // This allows retry on next processing cycle
-                        return Err(FerrousError::Connection("Write would block after max attempts".into()));
+                        // The peer is reading slowly: keep the unsent bytes and the offset, and
+                        // let the next processing cycle retry (has_pending_writes() stays true).
+                        // This is not an error: every caller that sees one drops the connection
+                        // sooner or later, which would truncate the reply stream mid-frame
+                        break;
                     }
                 }
                 Err(e) if e.kind() == ErrorKind::Interrupted => {
